@@ -8,6 +8,14 @@ BASELINE = json.load(open("/root/.vp/BASELINE.json"))["cmd"] if os.path.exists("
 
 # id -> (built?, level text, level note, technique, design ref)
 P = {
+ "C03": (True,
+  "Lean theorems over a model of the import tracker and the raw namer (adds_inv: after any sequence the two tables are inverse bijections, for any candidate function; add_stable; add_binds + add_valid + cfgF_ok: the repaired tracker — candidates filtered by token.IsIdentifier, numbered fallback, termination by a pigeonhole lemma — always binds a valid non-keyword identifier; imports_exact over the writer token model; std_reserved; kernel-evaluated facts about the std table regenerated from std.list), tied to the code by a differential run of the compiled model (camel-case model, candidate names, std table folded from the regenerated list) against NewRawNamer/NewDefaultImportTracker on path sequences and judged by an independent oracle (Go's token.IsIdentifier, uniqueness, the assembled file parsed with go/parser: imports = used qualifiers).",
+  "Trusted: Lean kernel; ASCII import paths (module.CheckImportPath alphabet) in the model of toLocalName; strings.ToLower∘cases.Title on ASCII as ASCII lower-casing; reference kinds that go through the type printer (named, generic, literal) are oracle-only in this check (their model is C11's); the correspondence is a sample.",
+  "Lean 4 proof (invariant by induction over add sequences, pigeonhole for the fallback, kernel evaluation of the regenerated std table) + correspondence + independent oracle", "6 C03"),
+ "C15": (True,
+  "Lean theorems over a model of ParseTypeRef / TypeRef.String / ParseRef / PkgImportPathAndExpose / rawNamer.processName (parse_print: every well-formed reference of any depth and width parses back to itself with the depth-counter scanner; splitRef_agree; rewrite_shape, rewrite_bound, rewrite_final_names: the namer's rewrite changes only package paths, registers exactly the foreign packages and every node carries the name any later extension of the table gives its package), tied to the code by a differential run against ParseTypeRef, ParseRef, PkgImportPathAndExpose and snippet.ID(string) rendered through a real writer (random trees, grammar enumeration, malformed strings for agreement only), with the tree the string was printed from as ground truth.",
+  "Trusted: Lean kernel; references whose head has a package path (a TypeName always has a package) for the naming-system clause; the tracker's names themselves are C03's subject; the correspondence is a sample.",
+  "Lean 4 proof (mutual structural induction over the nested reference tree) + correspondence + ground-truth oracle", "6 C15"),
  "C09": (True,
   "Lean theorems over a model of the template scanner, the Sprintf scanner, Comment/GoDirective and the snippet tree (scan_eq_subst: the repaired template scanner IS substitution into the tokens of the format — maximal names, one apostrophe consumed, argument text never tokenized; sprintf_spec likewise for %v/%T/%%; renderS_tmpl / renderS_sprintf / seq_spec lift both to snippet trees of any depth; lines_roundtrip / comment_lines for Comment), tied to the code by a differential run of the compiled model against snippet.T/Sprintf/Snippets/Comment/GoDirective rendered through a real SnippetWriter (random trees, exhaustive short formats) and judged by an independent Go re-statement of the property.",
   "Trusted: Lean kernel; text/scanner.Next modelled as 'next rune, invalid bytes become U+FFFD' (its leading-BOM skip is known finding F7, outside the theorems' domain); renderings of raw Go values under %v/%T are leaves supplied by the real dumper (C10/C11); the correspondence is a sample.",
